@@ -11,7 +11,13 @@ def pred_cases(draw, max_teams=8, max_size=8, regimes=("generic", "generic", "co
     cfg = draw(gen.configs(**({"kinds": kinds} if kinds else {})))
     sizes = draw(gen.shapes(max_teams=max_teams, max_size=max_size))
     teams, regime, info = draw(gen.team_values(cfg, sizes, tau_eff=0.0, regimes=list(regimes)))
-    return {"cfg": cfg, "teams": teams, "meta": {"regime": regime, **info}}
+    case = {"cfg": cfg, "teams": teams, "meta": {"regime": regime, **info}}
+    if draw(st.integers(0, 7)) == 0:
+        # the model has been through one call that did not complete normally before the predictions (osk.model_for)
+        from vf import failing
+
+        case["prelude"] = draw(failing.failing_specs(cfg))
+    return case
 
 
 def pred_labels(case):
